@@ -108,7 +108,7 @@ func separatorTables(w *World) []sepTable {
 func whitespaceOnly(s string) bool { return strings.TrimFunc(s, unicode.IsSpace) == "" }
 
 func ruleTBLsep(w *World, r *Report) {
-	r.Doc("TBL-sep", "the recursive splitter loses no non-whitespace text: what strings.Split removes (the separator) is either re-inserted by the join, or — for a separator that carries content — split into a whitespace joiner sep[:n] and a kept part sep[n:] (same n, n = length of the leading whitespace) that is put in front of every piece after the first", 3)
+	r.Doc("TBL-sep", "the recursive splitter loses no non-whitespace text: what strings.Split removes (the separator) is either re-inserted by the join, or — for a separator that carries content — split into a whitespace joiner sep[:n] and a kept part sep[n:] (same n, n = length of the leading whitespace) that is put in front of every piece after the first", 2)
 	fi := w.Func(ragPkg, "RecursiveCharacterSplitter.recursiveSplit")
 	if fi == nil {
 		r.Und("TBL-sep", "anchor:recursiveSplit", "", "anchor lost")
@@ -210,13 +210,18 @@ func ruleTBLsep(w *World, r *Report) {
 				if !(x.Op == token.ADD && x.X == ssa.Value(kept) && x.Y == ssa.Value(e)) {
 					bad = "used in an expression other than kept+piece"
 				}
+			case *ssa.Store:
+				// element 1 of a two-element literal []string{kept, piece} that is joined with ""
+				if !joinedAfterKept(x, kept) {
+					bad = "stored somewhere other than behind the kept part in a strings.Join(…, \"\")"
+				}
 			case *ssa.Phi:
 				for k, edge := range x.Edges {
 					if edge != ssa.Value(e) {
 						continue
 					}
 					pred := x.Block().Preds[k]
-					if !edgeMeansFirst(pred, x.Block(), idx) {
+					if !edgeMeansFirst(pred, x.Block(), idx) && !edgeMeansEmpty(pred, x.Block(), kept) {
 						bad = "reaches its uses un-prefixed on a path that is not restricted to the first piece (index 0)"
 					}
 				}
@@ -261,6 +266,72 @@ func edgeMeansFirst(pred, blk *ssa.BasicBlock, idx ssa.Value) bool {
 		return trueEdge
 	}
 	return false
+}
+
+// edgeMeansEmpty: the edge pred→blk is taken only when string value v is empty (v == "" true, v != "" false,
+// len(v) == 0 …); a short-circuit `a && v != ""` is followed one step up.
+func edgeMeansEmpty(pred, blk *ssa.BasicBlock, v ssa.Value) bool {
+	iff, ok := pred.Instrs[len(pred.Instrs)-1].(*ssa.If)
+	if !ok {
+		return false
+	}
+	trueEdge := pred.Succs[0] == blk && pred.Succs[1] != blk
+	falseEdge := pred.Succs[1] == blk && pred.Succs[0] != blk
+	bo, ok := iff.Cond.(*ssa.BinOp)
+	if !ok {
+		return false
+	}
+	if (bo.X == v || bo.Y == v) && (bo.Op == token.EQL || bo.Op == token.NEQ) {
+		other := bo.Y
+		if other == v {
+			other = bo.X
+		}
+		if cs, ok := constString(other); ok && cs == "" {
+			if bo.Op == token.EQL {
+				return trueEdge
+			}
+			return falseEdge
+		}
+	}
+	return false
+}
+
+// joinedAfterKept: st stores a piece into element 1 of a fresh two-element array whose element 0 is `kept`, and the
+// array is handed to strings.Join with an empty separator.
+func joinedAfterKept(st *ssa.Store, kept ssa.Value) bool {
+	ia, ok := st.Addr.(*ssa.IndexAddr)
+	if !ok {
+		return false
+	}
+	if c, ok := constInt(ia.Index); !ok || c != 1 {
+		return false
+	}
+	arr, ok := ia.X.(*ssa.Alloc)
+	if !ok {
+		return false
+	}
+	first, joined := false, false
+	for _, ref := range *arr.Referrers() {
+		switch x := ref.(type) {
+		case *ssa.IndexAddr:
+			if c, ok := constInt(x.Index); ok && c == 0 {
+				for _, r2 := range *x.Referrers() {
+					if s0, ok := r2.(*ssa.Store); ok && s0.Val == kept {
+						first = true
+					}
+				}
+			}
+		case *ssa.Slice:
+			for _, r2 := range *x.Referrers() {
+				if c, ok := r2.(*ssa.Call); ok && commonIs(&c.Call, "strings", "Join") && len(c.Call.Args) == 2 {
+					if sep, ok := constString(c.Call.Args[1]); ok && sep == "" {
+						joined = true
+					}
+				}
+			}
+		}
+	}
+	return first && joined
 }
 
 // ---------- GRD-size ----------
@@ -1201,6 +1272,63 @@ func ruleGRDverbatim(w *World, r *Report) {
 		}
 		walk(arg, 0)
 		r.Cond(ok, "GRD-verbatim", fmt.Sprintf("SplitText:split#%d:input-verbatim", i+1), w.Pos(c.Pos()), "the text parameter reaches recursiveSplit unchanged (whitespace trimming aside)", "SplitText does not hand its input to the splitter as received ("+why+"): content that the rewriting call drops or changes — bytes that are not valid UTF-8, mapped runes, replaced substrings — is missing from every chunk")
+	}
+}
+
+// verbatimFrom: does string value v reach this point unchanged from a string parameter of fn (whitespace trimming aside)?
+func verbatimFrom(fn *ssa.Function, v ssa.Value) (bool, string) {
+	ok, why := true, ""
+	var walk func(v ssa.Value, depth int)
+	walk = func(v ssa.Value, depth int) {
+		if depth > 8 {
+			ok, why = false, "provenance too deep"
+			return
+		}
+		for _, leaf := range valueRoots(v) {
+			switch x := leaf.(type) {
+			case *ssa.Parameter:
+				if x.Parent() != fn || !isStringType(x.Type()) {
+					ok, why = false, "not the string parameter"
+				}
+			case *ssa.Call:
+				o := calleeObj(&x.Call)
+				if o != nil && o.Pkg() != nil && o.Pkg().Path() == "strings" && o.Name() == "TrimSpace" && len(x.Call.Args) == 1 {
+					walk(x.Call.Args[0], depth+1)
+				} else if o != nil && o.Pkg() != nil {
+					ok, why = false, "rewritten by "+o.Pkg().Name()+"."+o.Name()
+				} else {
+					ok, why = false, "rewritten by a call"
+				}
+			default:
+				ok, why = false, fmt.Sprintf("computed (%T)", leaf)
+			}
+		}
+	}
+	walk(v, 0)
+	return ok, why
+}
+
+// ruleGRDverbatimFilter: the filter expression given to Engine.VFilter is the one that is evaluated. Quoted literals
+// may contain any whitespace; a normalisation of the whole expression that is not quote-aware changes which values a
+// clause names.
+func ruleGRDverbatimFilter(w *World, r *Report) {
+	r.Doc("GRD-verbatim-filter", "Engine.VFilter hands its filter parameter to DB.FindIDsByFilter unchanged (whitespace trimming of the whole expression aside): nothing rewrites the text of quoted literals on the way to the evaluator", 1)
+	fi := w.Func("pkg/engine", "Engine.VFilter")
+	ff := w.FuncObj("pkg/core", "DB.FindIDsByFilter")
+	if fi == nil || ff == nil {
+		r.Und("GRD-verbatim-filter", "anchor:Engine.VFilter/DB.FindIDsByFilter", "", "anchor lost")
+		return
+	}
+	fn := w.SSAFunc(fi.Obj)
+	calls := findInstrs(fn, callsTo(ff))
+	if len(calls) == 0 {
+		r.Und("GRD-verbatim-filter", "VFilter:evaluation", w.Pos(fi.Decl.Pos()), "VFilter no longer calls DB.FindIDsByFilter (shape not recognised)")
+		return
+	}
+	for i, c := range calls {
+		arg := c.(*ssa.Call).Call.Args[2] // receiver, index, filter
+		ok, why := verbatimFrom(fn, arg)
+		r.Cond(ok, "GRD-verbatim-filter", fmt.Sprintf("VFilter:evaluation#%d:filter-verbatim", i+1), w.Pos(c.Pos()), "the filter parameter reaches the evaluator unchanged", "Engine.VFilter does not evaluate the filter it was given ("+why+"): a rewrite of the whole expression also rewrites the text inside quoted literals, so `title='New  York'` selects the ids of 'New York' — while VSearch with the same filter still evaluates it as written")
 	}
 }
 
